@@ -141,6 +141,18 @@ def cfg_from_topo(topo: List[Dict[str, Any]], clients=(), servers=()) -> Dict[st
     return scenarios.base_cfg(nodes, links)
 
 
+def with_roles(cfg: Dict[str, Any], clients=(), servers=()) -> Dict[str, Any]:
+    """A copy of a scenario dict in which the named hosts carry the client / server software."""
+    cfg = copy.deepcopy(cfg)
+    for n in cfg["simulation"]["network"]["nodes"]:
+        if n.get("hostname") in servers:
+            n["services"] = copy.deepcopy(SERVER_SERVICES)
+        elif n.get("hostname") in clients:
+            n["services"] = copy.deepcopy(CLIENT_SERVICES)
+            n["applications"] = copy.deepcopy(CLIENT_APPS)
+    return cfg
+
+
 def expected_nodes(topo: List[Dict[str, Any]]) -> List[Dict[str, Any]]:
     """The model topology in ForwardingTrace encoding (to compare with what was read back)."""
     out = []
@@ -288,6 +300,7 @@ class FwdRecorder:
         from primaite.simulator.network.hardware.nodes.network.firewall import Firewall
         from primaite.simulator.network.hardware.nodes.network.router import Router, RouterInterface
         from primaite.simulator.network.hardware.nodes.network.switch import Switch, SwitchPort
+        from primaite.simulator.network.hardware.nodes.network.wireless_router import WirelessAccessPoint
         from primaite.simulator.system.core.session_manager import SessionManager
         from primaite.simulator.system.core.software_manager import SoftwareManager
 
@@ -327,8 +340,8 @@ class FwdRecorder:
             return e
 
         def after_send(nic, tok, ret, exc, frame):
-            if tok is not None and tok["ev"] == "Forward":
-                tok["acc"] = bool(ret) and exc is None
+            if tok is not None and tok["ev"] == "Forward" and exc is None:
+                tok["acc"] = bool(ret)  # (an exception further down the delivery leaves "sent")
 
         # ---- an interface sees the frame
         def before_recv(nic, frame):
@@ -361,7 +374,7 @@ class FwdRecorder:
             return (tr, len(tr["ev"]))
 
         def after_node(node, tok, ret, exc, frame, from_network_interface):
-            if tok is None:
+            if tok is None or exc is not None:
                 return
             tr, pos = tok
             me = rec.scene.node_of(node)
@@ -388,9 +401,9 @@ class FwdRecorder:
             if tr is not None and len(tr["ev"]) < rec.max_events:
                 tr["ev"].append(blank("Deliver", node=rec.scene.node_of(swm.node)))
 
-        for cls in (NIC, RouterInterface):
+        for cls in (NIC, RouterInterface, WirelessAccessPoint):
             tracer.wrap(cls, "send_frame", before=before_send, after=after_send)
-        for cls in (NIC, RouterInterface, SwitchPort):
+        for cls in (NIC, RouterInterface, SwitchPort, WirelessAccessPoint):
             tracer.wrap(cls, "receive_frame", before=before_recv, after=after_recv)
         for cls in (HostNode, Router, Firewall):
             tracer.wrap(cls, "receive_frame", before=before_node, after=after_node)
